@@ -23,6 +23,9 @@ INDEX = {
    {"name": "VerifH02PointOpsSlice", "common": {"max_depth": 2000}, "quick": {"bounds": {"steps": 3, "ops": 2, "keys": 2}}, "thorough": {"bounds": {"steps": 4, "ops": 3, "keys": 2}}},
    {"name": "VerifH02PointOpsBTree", "common": {"max_depth": 2000}, "quick": {"bounds": {"steps": 3, "ops": 2, "keys": 2}}, "thorough": {"bounds": {"steps": 4, "ops": 3, "keys": 2}}},
  ]},
+ "C03": {"package": "./roaring", "harnesses": [
+   {"name": "VerifH03Isolation", "common": {"max_depth": 3000}, "quick": {"bounds": {"array": 2, "runs": 1, "words": 1, "bases": 1, "wordmask6": 1, "runlen": 2, "derivations": 8, "mutations": 7}}},
+ ]},
  "C04": {"package": "./roaring", "harnesses": [
    {"name": "VerifH04RoundTrip", "common": {"max_depth": 2000}, "quick": {"bounds": {"containers": 1, "array": 2, "runs": 2, "words": 1, "bases": 1, "wordmask6": 1, "keychoices": 2}}, "thorough": {"bounds": {"containers": 2, "array": 3, "runs": 3, "words": 1, "bases": 2, "wordmask6": 1, "keychoices": 2}}},
    {"name": "VerifH04Import", "common": {"max_depth": 2000}, "quick": {"bounds": {"array": 1, "runs": 1, "words": 1, "bases": 1, "wordmask6": 1, "runlen": 2, "near": 1, "full": 1, "tkinds": 2, "ttyps": 1, "styps": 1}}, "thorough": {"bounds": {"array": 2, "runs": 2, "words": 1, "bases": 1, "wordmask6": 1, "runlen": 3, "near": 1, "full": 1, "tkinds": 2}}},
@@ -46,6 +49,9 @@ INDEX = {
  "C11": {"package": ".", "harnesses": [
    {"name": "VerifH11MergeBlock", "common": {"max_depth": 2000}, "quick": {"bounds": {"local": 1, "remotes": 2, "pairs": 2, "rows": 2, "colhis": 1}}, "thorough": {"bounds": {"local": 2, "remotes": 3, "pairs": 2, "rows": 3, "colhis": 2}}},
  ]},
+ "C12": {"package": ".", "harnesses": [
+   {"name": "VerifH12TopIDs", "common": {"max_depth": 3000}, "quick": {"bounds": {"steps": 2, "ops": 9, "rows": 2, "colhis": 1, "caches": 2, "cachesizes": 1, "filters": 2}}, "thorough": {"bounds": {"steps": 2, "ops": 9, "rows": 3, "colhis": 2, "caches": 2, "cachesizes": 2, "filters": 2}}},
+ ]},
  "C13": {"package": ".", "harnesses": [
    {"name": "VerifH13Mutex", "common": {"max_depth": 2000}, "quick": {"bounds": {"steps": 2, "ops": 3, "batch": 2}}, "thorough": {"bounds": {"steps": 2, "ops": 3, "batch": 3}}},
    {"name": "VerifH13Bool", "common": {"max_depth": 2000}, "quick": {"bounds": {"steps": 2, "ops": 3, "batch": 2}}},
@@ -53,6 +59,9 @@ INDEX = {
  "C14": {"package": ".", "harnesses": [
    {"name": "VerifH14Value", "common": {"max_depth": 2000}, "quick": {"bounds": {"depths": 2, "cols": 1}}, "thorough": {"bounds": {"depths": 3, "cols": 2, "symbase": 1}}},
    {"name": "VerifH14Range", "common": {"max_depth": 2000}, "quick": {"bounds": {"depths": 2, "cols": 1, "ops": 7}}, "thorough": {"bounds": {"depths": 3, "cols": 2, "ops": 7, "symbase": 1}}},
+ ]},
+ "C16": {"package": ".", "harnesses": [
+   {"name": "VerifH16Rows", "common": {"max_depth": 3000}, "quick": {"bounds": {"steps": 2, "ops": 9, "rows": 3, "colhis": 1, "caches": 1}}, "thorough": {"bounds": {"steps": 2, "ops": 9, "rows": 4, "colhis": 2, "caches": 3}}},
  ]},
  "C17": {"package": ".", "harnesses": [
    {"name": "VerifH17MinReducer", "quick": {"bounds": {"partials": 3}}, "thorough": {"bounds": {"partials": 4}}},
@@ -62,5 +71,15 @@ INDEX = {
  "C20": {"package": ".", "harnesses": [
    {"name": "VerifH20Owners", "common": {"max_depth": 2000}, "quick": {"bounds": {"nodes": 3, "replicas": 4}}, "thorough": {"bounds": {"nodes": 4, "replicas": 5}}},
    {"name": "VerifH20OwnsShard", "common": {"max_depth": 2000}, "quick": {"bounds": {"nodes": 3, "replicas": 4}}},
+ ]},
+ "C23": {"package": ".", "harnesses": [
+   {"name": "VerifH23Gate", "common": {"max_depth": 3000}, "quick": {"bounds": {}}},
+ ]},
+ "C24": {"package": ".", "harnesses": [
+   {"name": "VerifH24Translate", "common": {"max_depth": 3000}, "quick": {"bounds": {"keys": 2, "keylen": 1, "smalltable": 1}}, "thorough": {"bounds": {"keys": 3, "keylen": 2, "smalltable": 1}}},
+ ]},
+ "C27": {"package": "./encoding/proto", "harnesses": [
+   {"name": "VerifH27Messages", "common": {"max_depth": 3000}, "quick": {"bounds": {"strlen": 1, "slice": 2, "types": 12}}, "thorough": {"bounds": {"strlen": 2, "slice": 2, "types": 12}}},
+   {"name": "VerifH27Garbage", "common": {"max_depth": 3000}, "quick": {"bounds": {"len": 4, "targets": 14}}, "thorough": {"bounds": {"len": 6, "targets": 14}}},
  ]},
 }
